@@ -98,7 +98,7 @@ def native_build(verif, repo, h, bounds, scratch, sanitize=True):
         if bn in tus:
             args = []
             for s in h.get('cut', ()):
-                args += ['--weaken-symbol=' + s]
+                args += ['--globalize-symbol=' + s, '--weaken-symbol=' + s]
             for s in h.get('export', ()):
                 args += ['--globalize-symbol=' + s]
             if bn in MAIN_FILES:
@@ -114,14 +114,14 @@ def native_build(verif, repo, h, bounds, scratch, sanitize=True):
             return None, log
         objs.append(o)
     ho = os.path.join(d, 'harness.o')
-    rc, out = run(base + lower.GETOPT + inc + hflags + ['-fno-access-control', '-c', os.path.join(verif, 'harness', h['src']), '-o', ho])
+    rc, out = run(base + lower.GETOPT + inc + hflags + ['-fno-access-control', '-ffunction-sections', '-fdata-sections', '-c', os.path.join(verif, 'harness', h['src']), '-o', ho])
     if rc != 0:
         return None, out
     rt = os.path.join(d, 'rt.o')
     rc, out = run(base + ['-DVERIF_ENTRY=' + h['entry'], '-c', os.path.join(verif, 'engine/replay_rt.cxx'), '-o', rt])
     if rc != 0:
         return None, out
-    rc, out = run(base + ['-o', binp, ho, rt] + objs + ['-ldl'])
+    rc, out = run(base + ['-Wl,--gc-sections', '-o', binp, ho, rt] + objs + ['-ldl'])
     if rc != 0:
         return None, out
     return binp, ''
